@@ -11,6 +11,11 @@ CLAIMS = {
          'TLC closes the (tree, node-set) graph of spec/Paths.tla under every axis x node test x predicate x // x (E)[p] construct for all trees in the stated bounds and checks the axis laws; each of the ~1.7M transitions is then replayed on the real code through the public API with order and multiplicity compared. Exhaustive within the bounds; path length is unbounded because the path is not part of the state.',
          'bounds: trees N<=3 with comments/PIs/attributes (N=4 elements+text), two element names; namespace axis not modelled; libxml2 trusted as second oracle for the specification',
          'DESIGN.md section 4 C01'),
+ 'C06': ('model_checking',
+         'TLA+ value-state machine (Numeric) explored by TLC with the F&O laws as invariants; every edge of the dumped graph replayed as XPath expressions (literal/constructor/nested spellings, 4 parsers); python fractions as second oracle of the spec',
+         'spec/Numeric.tla defines + - * div idiv mod, unary minus, abs/floor/ceiling/round/round(x,p)/round-half-to-even over exact rationals with IEEE specials and signed zero; TLC checks a=(a idiv b)*b+(a mod b), truncation, sign of mod, floor/ceiling/round, ties-to-even, promotion and division-by-zero laws on every reachable accumulator, and the graph (all grid pairs x operators, chains of two operations) is replayed on the real evaluator comparing value, type and sign of zero.',
+         'grid of ~30 (quick) / ~60 (thorough) boundary values per the four types; non-dyadic decimals are not mixed with float/double (cast rounding is outside the exact model); decimal division precision and xs:float single-precision rounding are implementation-defined',
+         'DESIGN.md section 4 C06'),
 }
 NOT_YET = 'check not built yet (construction in progress, see DESIGN.md section 5)'
 
